@@ -1,6 +1,6 @@
 (* C14 -- top-level statements about the expression parser. *)
 From Coq Require Import ZArith List String Bool Arith Lia.
-From SV Require Import C14.Tokens C14.Parse C14.Print C14.ProofsBase C14.ProofsExpr C14.ProofsAll.
+From SV Require Import C14.Tokens C14.Parse C14.Print C14.ProofsBase C14.ProofsExpr C14.ProofsAll C14.ProofsSize.
 Import ListNotations.
 Open Scope nat_scope.
 
@@ -49,11 +49,12 @@ Qed.
 (* FileOptions.ParseExpr with the fuel the model uses *)
 Lemma parse_expr_print_lemma :
   forall (e : expr) (pnl peof : pos) (nl : bool),
-    wf_expr e = true -> size e <= List.length (tokens e) ->
+    wf_expr e = true ->
     parse_expr (tokens e ++ (if nl then [(NEWLINE, pnl)] else []) ++ [(EOF, peof)]) = Ok e.
 Proof.
-  intros e pnl peof nl Hwf Hsz. unfold wf_expr in Hwf.
+  intros e pnl peof nl Hwf. unfold wf_expr in Hwf.
   apply andb_true_iff in Hwf. destruct Hwf as [Hwf Hnp]. apply andb_true_iff in Hwf. destruct Hwf as [Hwp Hisx].
+  pose proof (size_le_tokens e Hwp) as Hsz.
   unfold parse_expr, parse_expr_n.
   rewrite (parse_print_expr_lemma e false); auto.
   - destruct nl; reflexivity.
@@ -89,16 +90,15 @@ Proof.
     destruct (head_ok_all x Hw Hi) as (Hne & _). rewrite <- (IH x Hs Hw Hi).
     destruct (tokens x); [congruence|reflexivity]. }
   destruct e; cbn [wp] in Hwp; cbn [isx] in Hisx; try discriminate; cbn [tokens start]; try reflexivity.
-  - split_andb. eapply sub; eauto. cbn [size]. lia.
-  - split_andb. eapply sub; eauto. cbn [size]. lia.
-  - split_andb. eapply (sub e1); eauto. cbn [size]. lia.
-  - split_andb. eapply sub; eauto. cbn [size]. lia.
-  - destruct curly; reflexivity.
-  - split_andb. eapply (sub e1); eauto. cbn [size]. lia.
+  - split_andb. eapply sub; eauto; cbn [size]; lia.
+  - split_andb. eapply sub; eauto; cbn [size]; lia.
+  - split_andb. eapply (sub e1); eauto; cbn [size]; lia.
+  - split_andb. eapply sub; eauto; cbn [size]; lia.
+  - split_andb. eapply (sub e1); eauto; cbn [size]; lia.
   - split_andb. destruct l as [|x l]; [cbn in *; destruct tc; discriminate|].
     match goal with H : forallb _ (_ :: _) = true |- _ => cbn [forallb] in H end. split_andb.
-    rewrite <- app_assoc. eapply sub; eauto. cbn [size fold_right]. lia.
+    rewrite <- app_assoc. eapply sub; eauto; cbn [size fold_right]; lia.
   - destruct x; [reflexivity|destruct op; discriminate].
   - destruct (prec_of op) eqn:E; [|discriminate]. split_andb.
-    eapply (sub e1); eauto. cbn [size]. lia.
+    eapply (sub e1); eauto; cbn [size]; lia.
 Qed.
